@@ -60,6 +60,11 @@ CLAIMED.update({
          "note": "The split/join round trip of the stored group file (_str_from_list/_get_named_paths) and the comment scanner are covered by the bounded runs only.",
          "tech": BT},
 })
+CLAIMED.update({
+ "C06": {"cat": "other", "text": "Proved: Header.to_value reads the cell under the header by name or by index and reads as absent (None) on a short row or unknown header; CsvPath.header_index is the first position (loop invariant, array-encoded list); limit_collection is the identity without collect(). Bounded: files written by csv.writer (4 delimiters x 2 quote chars, quotes/delimiters/newlines/unicode/BOM in cells, ragged and blank records) are read back through the real CsvPath and compared with csv.reader's own parse; headers against the documented cleaning.",
+         "note": "csv dialect parsing itself is external ([A] csv.reader); CsvDataReader.next / LineCounter loops are covered by the bounded files only; xlsx/s3/pandas readers not covered.",
+         "tech": BT},
+})
 NA_REASON = {}
 m = {
  "version": 1, "setup_cmd": "./setup.sh",
